@@ -204,6 +204,12 @@ def driverStep (t : Tree) (line : String) : Tree × String :=
       if fl ≤ 1 ∧ ext ≤ 1 then (t, s!"flags {protoVolumeFlags (fl = 1) (ext = 1)}")
       else (t, "bad-op")
     | _, _ => (t, "bad-op")
+  | ["demorganx"] =>
+    -- `transform_negated_joins` without the documented precondition; `error assert` = a
+    -- compiled-out assertion failed and a null id reached `insert` (the real code crashes)
+    match transformNegatedJoins t with
+    | .ok t' => (t', withDump "ok" t')
+    | .error e => (t, withDump s!"error {if e = "assert" then "crash" else e}" t)
   | ["demorgan"] =>
     if !demorganPrecondition t then (t, "precondition")
     else
